@@ -954,7 +954,7 @@ func (P *Prog) checkProviderTagTable(r *Result) {
 		}
 	}
 	// zjson.Decode: NewMapDataProvider(m, &jsonTag)
-	if fn := returnedClosure(P.fn("zog/parsers/zjson.Decode")); fn != nil {
+	if fn := peelDelegation(returnedClosure(P.fn("zog/parsers/zjson.Decode"))); fn != nil {
 		r.sawFunc(fname(fn))
 		found := false
 		eachInstr(fn, func(_ *ssa.BasicBlock, _ int, in ssa.Instruction) {
